@@ -544,6 +544,11 @@ func (m *monState) noteReadIssued(w *World, n *node, ctx []byte) {
 		}
 	}
 	key := int(dhash(ctx) % 3)
+	if old, ok := m.reads[string(ctx)]; ok && old.node == n.id {
+		// duplicate context: the earliest issue is the (weaker, sound) reference
+		w.Stats["reads-duplicate-context"]++
+		return
+	}
 	m.reads[string(ctx)] = &readRec{node: n.id, inc: n.inc, issueStep: w.step, maxCommit: mx, key: key}
 }
 
